@@ -381,7 +381,9 @@ def build_contract_job(unit, fs):
         ty, nm = p.rsplit(None, 1)
         while nm.startswith('*'):
             ty += '*'; nm = nm[1:]
-        if ty in NONDET:
+        if nm in fs.get('fix', {}):
+            decl_lines.append('  %s %s = %s;' % (ty, nm, fs['fix'][nm]))
+        elif ty in NONDET:
             decl_lines.append('  %s %s = %s;' % (ty, nm, NONDET[ty]))
         else:
             decl_lines.append('  %s %s;' % (ty, nm))
@@ -417,6 +419,11 @@ def build_contract_job(unit, fs):
     parts[parts.index('@@MIRROR_GLOBALS@@')] = '\n'.join(mir_globals)
     ifn = parts.index('@@FNDEF@@')
     parts[ifn] = unit.fn_def(fs_m)
+    # syntactic side conditions of stub contracts (e.g. "every call of this stub in the function has the same first two arguments")
+    for rx, maxn, why in fs.get('must_match', []):
+        found = set(re.findall(rx, parts[ifn]))
+        if len(found) > maxn:
+            raise cxx2c.ExtractionBreak('%s: %s (found %s)' % (fs['cname'], why, sorted(found)))
     # only callees that occur in the emitted text can be replaced by their contracts (names met inside dropped
     # expressions - exception messages - are not in the program)
     body_text = parts[ifn] + '\n'.join(defs_inline) + '\n'.join(w for w in unit.make_wrappers()) + getattr(m, 'PRELUDE', '')
@@ -430,9 +437,9 @@ def build_contract_job(unit, fs):
         fs_c = dict(fs_m); fs_c['requires'] = fs_m['requires'] + list(fs['cex_requires'])
         parts2 = list(parts); parts2[ifn] = unit.fn_def(fs_c)
         cex_ctext = '\n'.join(parts2[:1] + protos_for_wrappers(unit, fs, replace, inline) + parts2[1:] + h)
-    return _drop(_with_cex(cex_ctext, Job(unit, 'p_' + fs['cname'], 'contract', ctext, 'h_' + fs['cname'], enforce=fs['cname'],
+    return _drop(_with_cex(cex_ctext, Job(unit, 'p_' + fs['cname'] + ('_' + fs['job_tag'] if fs.get('job_tag') else ''), 'contract', ctext, 'h_' + fs['cname'], enforce=fs['cname'],
                replace=sorted(set(replace)), loops=bool(fs.get('loops')), extra_flags=fs.get('cbmc_flags', ()),
-               meta=dict(function=fs['qname'], cname=fs['cname']), timeout=fs.get('timeout'), split=fs.get('split', False))), fs)
+               meta=dict(function=fs['qname'], cname=fs['cname'], mem_kb=fs.get('mem_kb'), variant=fs.get('fix')), timeout=fs.get('timeout'), split=fs.get('split', False))), fs)
 
 def _with_cex(cex_ctext, job):
     job.cex_ctext = cex_ctext
@@ -613,7 +620,12 @@ def main(argv):
             if fs.get('contract', True) and (fs.get('ensures') is not None or fs.get('requires') is not None):
                 if fs.get('tier') == 'thorough' and tier != 'thorough':
                     continue
-                jobs.append(build_contract_job(unit, fs))
+                if fs.get('variants'):
+                    # one run per variant: the named scalar arguments are constants of the harness, so that symbolic execution prunes the other branches
+                    for v in fs['variants']:
+                        jobs.append(build_contract_job(unit, dict(fs, fix=v['fix'], job_tag=v['tag'])))
+                else:
+                    jobs.append(build_contract_job(unit, fs))
         for lm in getattr(unit.m, 'LEMMAS', []):
             if lm.get('tier') == 'thorough' and tier != 'thorough':
                 continue
